@@ -234,11 +234,11 @@ def siblings(ctx, rng, monitor, specs, late=None, **det):
 def mutable_arg(ctx, monitor, f, m, want, must_accept=True, **det):
     """f(message) called with a bytearray the caller still owns: the result is the one for bytes(m), also when the very same buffer
     is passed again, and the library leaves the buffer as it was.  `must_accept=False` is for the few entry points that refuse a
-    bytearray on the pinned tree (a TypeError there is a refusal and judges nothing); everywhere else a bytearray is a byte string
+    bytearray on the pinned tree (an error there is a refusal and judges nothing); everywhere else a bytearray is a byte string
     like any other and an error instead of the result is a failure."""
     buf = bytearray(m)
     r1 = call(f, buf)
-    if not must_accept and is_exc(r1, 'TypeError') and not is_exc(want):
+    if not must_accept and is_exc(r1) and not is_exc(want):          # whatever error class the refusal uses
         ctx.notes['bytearray refused by the library (%s)' % monitor] += 1
         return False
     r2 = call(f, buf)
